@@ -442,7 +442,7 @@ Ref World::apply_forms_misc(const Op& op)
    }
    // ------------------------------------------------------------------ setters: fields the client explicitly sets
    case OP_set_decl_fields: {
-      const uint64_t which = uint64_t(op.a[0]) % 12;
+      const uint64_t which = uint64_t(op.a[0]) % 14;
       const int64_t i = op.a[1];
       auto set_all = [&](const ipr::Decl& d, const char* key, Ref v) { for_each_in_set(d, [&](Rec& rc) { rc.exp.set_r(key, v); }); };
       switch (which) {
@@ -454,7 +454,22 @@ Ref World::apply_forms_misc(const Op& op)
       case 5: if (auto d = ivars.pick(i)) { auto sp = ipr::Specifiers(uint64_t(op.a[2]) % 1024); d->specifiers(sp); if (Rec* rc = rec(nref(*d))) rc->exp.set_s("specifiers", int64_t(sp)); return nref(*d); } break;
       case 6: if (auto d = ifields.pick(i)) { const ipr::Expr& x = Eo(op.a[2], nref(*d)); d->init = Optional<ipr::Expr>(x); if (Rec* rc = rec(nref(*d))) rc->exp.set_r("initializer", nref(x)); return nref(*d); } break;
       case 7: if (auto d = ibitfields.pick(i)) { const ipr::Expr& x = Eo(op.a[2], nref(*d)); d->length = &x; if (Rec* rc = rec(nref(*d))) rc->exp.set_r("precision", nref(x)); return nref(*d); } break;
-      case 8: if (auto d = itypedecls.pick(i)) { const ipr::Type& t = T(op.a[2]); d->init = Optional<ipr::Type>(t); if (Rec* rc = rec(nref(*d))) rc->exp.set_r("initializer", nref(t)); return nref(*d); } break;
+      case 8: if (auto d = itypedecls.pick(i)) {
+            const ipr::Type& t = T(op.a[2]);
+            if (not older(nref(t), nref(*d))) break;
+            // A user-defined type as initializer means "print its body here".  To keep the print graph acyclic only
+            // leaf bodies are used that way (no member of theirs prints another body), the declaration must not
+            // live inside that body, and the body is sealed afterwards (no further members).
+            if (Rec* tr = rec(nref(t)); tr != nullptr and is_udt_category(tr->exp.cat)) {
+               Rec* dr = rec(nref(*d));
+               if (dr == nullptr or not can_seal_as_body(t, dr->born)) break;
+               sealed_bodies.insert(nref(t));
+               body_printers.insert(nref(*d));
+            }
+            d->init = Optional<ipr::Type>(t);
+            if (Rec* rc = rec(nref(*d))) rc->exp.set_r("initializer", nref(t));
+            return nref(*d);
+         } break;
       case 9: if (auto d = ifundecls.pick(i)) {
             if (mappings.empty()) break;
             impl::Mapping* m = mappings.pick(op.a[2]);
@@ -463,7 +478,28 @@ Ref World::apply_forms_misc(const Op& op)
             if (Rec* rc = rec(nref(*d))) { rc->exp.set_r("mapping", nref(*m)); rc->exp.set_r("initializer", nref(*m)); rc->exp.set_r("parameters", nref(m->inputs)); }
             return nref(*d);
          } break;
-      case 10: if (auto d = iparams.pick(i)) { const ipr::Expr& x = Eo(op.a[2], nref(*d)); d->init = Optional<ipr::Expr>(x); if (Rec* rc = rec(nref(*d))) rc->exp.set_r("initializer", nref(x)); return nref(*d); } break;
+      case 10: if (auto d = iparams.pick(i)) { const ipr::Expr& x = Eo(op.a[2], bound_for(nref(*d))); d->init = Optional<ipr::Expr>(x); if (Rec* rc = rec(nref(*d))) rc->exp.set_r("initializer", nref(x)); return nref(*d); } break;
+      case 11: if (auto d = itemplates.pick(i)) {
+            if (mappings.empty()) break;
+            impl::Mapping* m = mappings.pick(op.a[2]);
+            if (not older(nref(*m), nref(*d))) break;
+            d->init = m;
+            if (Rec* rc = rec(nref(*d))) {
+               rc->exp.set_r("mapping", nref(*m));
+               const Slot* res = nullptr;
+               if (Rec* mr = rec(nref(*m))) res = mr->exp.find("result");
+               rc->exp.set_r("initializer", res ? res->ref : ABSENT);
+               template_mapping[nref(*m)].push_back(nref(*d));
+            }
+            return nref(*d);
+         } break;
+      case 12: {
+            // lexical regions of the declarations that have their own
+            const ipr::Region& r = AnyR(op.a[2]);
+            if (uint64_t(op.a[3]) % 3 == 0) { if (auto d = itypedecls.pick(i)) { d->lexreg = &r; if (Rec* rc = rec(nref(*d))) rc->exp.set_r("lexical_region", nref(r)); return nref(*d); } }
+            else if (uint64_t(op.a[3]) % 3 == 1) { if (auto d = ifundecls.pick(i)) { d->lexreg = &r; if (Rec* rc = rec(nref(*d))) rc->exp.set_r("lexical_region", nref(r)); return nref(*d); } }
+            else if (auto d = itemplates.pick(i)) { d->lexreg = &r; if (Rec* rc = rec(nref(*d))) rc->exp.set_r("lexical_region", nref(r)); return nref(*d); }
+         } break;
       default: if (auto d = ienumerators.pick(i)) { const ipr::Expr& x = Eo(op.a[2], nref(*d)); d->init = Optional<ipr::Expr>(x); if (Rec* rc = rec(nref(*d))) rc->exp.set_r("initializer", nref(x)); return nref(*d); } break;
       }
       return nullptr;
@@ -646,7 +682,14 @@ Ref World::apply_forms_misc(const Op& op)
    case OP_set_callable_fields: {
       const uint64_t which = uint64_t(op.a[0]) % 8;
       switch (which) {
-      case 0: if (auto m = mappings.pick(op.a[1])) { const ipr::Expr& x = Eo(op.a[2], nref(*m)); m->body = &x; if (Rec* rc = rec(nref(*m))) rc->exp.set_r("result", nref(x)); return nref(*m); } break;
+      case 0: if (auto m = mappings.pick(op.a[1])) {
+            const ipr::Expr& x = Eo(op.a[2], nref(*m));
+            if (Rec* xr = rec(nref(x)); xr != nullptr and is_udt_category(xr->exp.cat)) break;      // a body to be printed in place: not through mappings
+            m->body = &x;
+            if (Rec* rc = rec(nref(*m))) rc->exp.set_r("result", nref(x));
+            for (Ref t : template_mapping[nref(*m)]) if (Rec* tr = rec(t)) tr->exp.set_r("initializer", nref(x));
+            return nref(*m);
+         } break;
       case 1: if (auto l = lambdas.pick(op.a[1])) { const ipr::Expr& x = Eo(op.a[2], nref(*l)); l->body = &x; if (Rec* rc = rec(nref(*l))) rc->exp.set_r("result", nref(x)); return nref(*l); } break;
       case 2: if (auto l = lambdas.pick(op.a[1])) { if (closures.empty()) break; impl::Closure* c = closures.pick(op.a[2]); l->typing = static_cast<const ipr::Closure*>(c); if (Rec* rc = rec(nref(*l))) rc->exp.set_r("type", nref(*c)); return nref(*l); } break;
       case 3: if (auto l = lambdas.pick(op.a[1])) { const ipr::Type& t = T(op.a[2]); l->value_type = Optional<ipr::Type>(t); if (Rec* rc = rec(nref(*l))) rc->exp.set_r("target", nref(t)); return nref(*l); } break;
